@@ -53,7 +53,8 @@ class TableSaving(BaseSaving):
 class FnChangeScore(BaseChangeScore):
     """fn(j, s, k, e) -> int, for p columns."""
 
-    def __init__(self, fn=None, p=1, min_size_=1):
+    def __init__(self, fn=None, p=1, min_size_=1, int_dtype=False):
+        self.int_dtype = int_dtype          # evaluate returns an int64 array (a user-defined scorer may)
         self.fn = fn
         self.p = p
         self.min_size_ = min_size_
@@ -67,13 +68,15 @@ class FnChangeScore(BaseChangeScore):
         return self
 
     def _evaluate(self, cuts):
-        return np.array([[float(self.fn(j, *map(int, c))) for j in range(self.p)] for c in cuts]).reshape(len(cuts), self.p)
+        out = np.array([[float(self.fn(j, *map(int, c))) for j in range(self.p)] for c in cuts]).reshape(len(cuts), self.p)
+        return out.astype(np.int64) if self.int_dtype else out
 
 
 class FnLocalScore(BaseLocalAnomalyScore):
     """fn(j, s, a, b, e) -> int, for p columns."""
 
-    def __init__(self, fn=None, p=1, min_size_=1):
+    def __init__(self, fn=None, p=1, min_size_=1, int_dtype=False):
+        self.int_dtype = int_dtype          # evaluate returns an int64 array (a user-defined scorer may)
         self.fn = fn
         self.p = p
         self.min_size_ = min_size_
@@ -87,7 +90,8 @@ class FnLocalScore(BaseLocalAnomalyScore):
         return self
 
     def _evaluate(self, cuts):
-        return np.array([[float(self.fn(j, *map(int, c))) for j in range(self.p)] for c in cuts]).reshape(len(cuts), self.p)
+        out = np.array([[float(self.fn(j, *map(int, c))) for j in range(self.p)] for c in cuts]).reshape(len(cuts), self.p)
+        return out.astype(np.int64) if self.int_dtype else out
 
 
 # ----------------------------------------------------------------------------------------
